@@ -898,6 +898,105 @@ sslio_case(long long seed, long idx)
 	tp_pair_free(&s.p);
 }
 
+/* ------------------------------------------------------------------ */
+/* close_notify in an unprotected record (before any key), the record cut at every
+ * position: the endpoint must stay coherent while the record is incomplete (tp_check
+ * after every call: in particular it must keep offering an operation), and once the
+ * whole record has arrived it must answer and close without error whatever the cut,
+ * for every buffer layout */
+
+static int
+prealert_run(int role, int layout, const unsigned char *rec, size_t rl, size_t cut, int *err, size_t *emitted, int *stalled)
+{
+	tp_ep ep;
+	tp_cfg c;
+	tp_fifo in, sink;
+	int closed, guard;
+	memset(&ep, 0, sizeof ep);
+	tp_cfg_default(&c, role);
+	c.layout = layout;
+	if (layout == TP_LAYOUT_MONO) c.buflen = BR_SSL_BUFSIZE_MONO;
+	else if (layout == TP_LAYOUT_SPLIT1) c.buflen = BR_SSL_BUFSIZE_BIDI;
+	else { c.buflen = BR_SSL_BUFSIZE_INPUT; c.buflen_out = BR_SSL_BUFSIZE_OUTPUT; }
+	memset(c.seed, 0x19, 32);
+	tp_fifo_init(&in); tp_fifo_init(&sink);
+	*stalled = 0;
+	if (!tp_ep_start(&ep, &c)) { TP_VIOL("setup", "reset failed"); return -1; }
+	/* a client first emits its ClientHello */
+	for (guard = 0; guard < 1000 && (br_ssl_engine_current_state(ep.eng) & BR_SSL_SENDREC); guard ++) tp_act_sendrec(&ep, &sink, 100000);
+	sink.rd = sink.wr = 0;
+	tp_fifo_put(&in, rec, cut);
+	for (guard = 0; guard < 1000 && tp_fifo_len(&in) > 0; guard ++) {
+		if (tp_act_recvrec(&ep, &in, 100000) == 0) {
+			if (br_ssl_engine_current_state(ep.eng) & BR_SSL_SENDREC) tp_act_sendrec(&ep, &sink, 100000);
+			else break;
+		}
+	}
+	for (guard = 0; guard < 1000 && (br_ssl_engine_current_state(ep.eng) & BR_SSL_SENDREC); guard ++) tp_act_sendrec(&ep, &sink, 100000);
+	/* the rest of the record */
+	tp_fifo_put(&in, rec + cut, rl - cut);
+	for (guard = 0; guard < 1000 && tp_fifo_len(&in) > 0 && !tp_ep_closed(&ep); guard ++) {
+		if (tp_act_recvrec(&ep, &in, 100000) == 0) {
+			if (br_ssl_engine_current_state(ep.eng) & BR_SSL_SENDREC) tp_act_sendrec(&ep, &sink, 100000);
+			else { *stalled = 1; break; }
+		}
+	}
+	for (guard = 0; guard < 1000 && (br_ssl_engine_current_state(ep.eng) & BR_SSL_SENDREC); guard ++) tp_act_sendrec(&ep, &sink, 100000);
+	closed = tp_ep_closed(&ep);
+	*err = br_ssl_engine_last_error(ep.eng);
+	*emitted = tp_fifo_len(&sink);
+	tp_fifo_free(&in); tp_fifo_free(&sink);
+	tp_ep_free(&ep);
+	return closed;
+}
+
+static void
+prealert_case(long long seed, long idx)
+{
+	static const unsigned char tails[6][8] = {
+		{ 0 }, { 1, 0 }, { 1, 0, 1, 0 }, { 1, 42 }, { 1, 42, 1, 0, 1, 90 }, { 0, 0, 0, 0, 0, 0, 0 }
+	};
+	static const size_t tail_len[6] = { 0, 2, 4, 2, 6, 7 };
+	static const int benign[6] = { 1, 1, 1, 1, 1, 0 };
+	int role = (int)(idx & 1), layout = (int)((idx >> 1) % 3), tk = (int)((idx / 6) % 6), lead = (int)((idx / 36) % 2);
+	unsigned char rec[40];
+	size_t rl = 5, cut;
+	int ref_closed = -2, ref_err = 0, e, cl, stalled;
+	size_t ref_emitted = 0, em;
+	char what[240];
+	(void)seed;
+	rec[0] = 21; rec[1] = 3; rec[2] = 3;
+	/* optionally a warning that is not close_notify comes first */
+	if (lead) { rec[rl ++] = 1; rec[rl ++] = 41; }
+	rec[rl ++] = 1; rec[rl ++] = 0;
+	memcpy(rec + rl, tails[tk], tail_len[tk]); rl += tail_len[tk];
+	rec[3] = 0; rec[4] = (unsigned char)(rl - 5);
+	for (cut = rl; cut >= 1; cut --) {
+		snprintf(tp_case, sizeof tp_case, "%s prealert idx=%ld role=%d layout=%d record=%s cut-after=%zu", base, idx, role, layout, vf_hexs(rec, rl), cut);
+		cl = prealert_run(role, layout, rec, rl, cut, &e, &em, &stalled);
+		vf_stat("prealert_runs", 1);
+		if (cl < 0) return;
+		if (cut == rl) {
+			ref_closed = cl; ref_err = e; ref_emitted = em;
+			if (benign[tk] && (!cl || e != 0)) {
+				snprintf(what, sizeof what, "close_notify in an unprotected record delivered whole: closed=%d err=%d", cl, e);
+				TP_VIOL("prealert:close-notify-not-honoured", what);
+			}
+			continue;
+		}
+		if (!benign[tk]) { vf_stat("prealert_unjudged_non_benign_tail", 1); continue; }
+		if (stalled || cl != ref_closed || e != ref_err) {
+			snprintf(what, sizeof what, "record cut after %zu of %zu bytes: closed=%d err=%d stalled=%d, delivered whole: closed=%d err=%d",
+				cut, rl, cl, e, stalled, ref_closed, ref_err);
+			TP_VIOL("prealert:outcome-depends-on-cut", what);
+		} else {
+			vf_stat("prealert_cuts_agree", 1);
+		}
+		(void)ref_emitted;
+	}
+	vf_distinct("prealert_cfg", "r%d/l%d/t%d/w%d", role, layout, tk, lead);
+}
+
 int
 main(int argc, char **argv)
 {
@@ -920,6 +1019,7 @@ main(int argc, char **argv)
 		else if (!strcmp(mode, "reneg")) reneg_case(seed, idx);
 		else if (!strcmp(mode, "sslio")) sslio_case(seed, idx);
 		else if (!strcmp(mode, "decline")) decline_case(seed, idx);
+		else if (!strcmp(mode, "prealert")) prealert_case(seed, idx);
 		vf_stat("cases", 1);
 	}
 	vf_stat("monitored_calls", tp_calls);
